@@ -14,8 +14,11 @@ inject() { python3 - "$1/$target" "$D/m$N.demo.rs" <<'PY'
 import sys,re
 p,d=sys.argv[1],sys.argv[2]
 s=open(p).read(); t=open(d).read()
-i=s.rstrip().rfind('}')
-open(p,'w').write(s[:i]+'\n'+t+'\n}\n')
+if '/tests/' in p:      # a file of free test functions: append at the end
+    open(p,'w').write(s+'\n'+t+'\n')
+else:
+    i=s.rstrip().rfind('}')
+    open(p,'w').write(s[:i]+'\n'+t+'\n}\n')
 PY
 }
 echo "== suite with the change (no demo)"; ( cd $W/mut && cargo test --offline --lib 2>&1 | grep "test result" )
